@@ -478,7 +478,7 @@ theorem sibling_independence (n : Nat) (C : Ctx) (e1 e2 : Expr) (o1 : Obj) (v1 :
 
 /-- the same for the operands of a strict binary operator / the arguments of a call -/
 theorem no_leak_arg (n : Nat) (C : Ctx) (op : BinOp) (a b : Expr) (x : Obj)
-    (hop : op ≠ .and ∧ op ≠ .or) (ha : eval n C a = .ok x) :
+    (hop : op ≠ .and ∧ op ≠ .or) (hlit : litOk op a = true ∧ litOk op b = true) (ha : eval n C a = .ok x) :
     eval (n + 1) C (.bin op a b) = (do let y ← eval n C b; binop op x y) := by
   cases op <;> simp_all [eval_succ, step]
 
